@@ -3,6 +3,9 @@ NOTES = ('Model-based verification with explicit TLA+ specifications (specs/), c
          'specification behaviours into the real objects (harness/, Binding A) and validating recorded executions against trace '
          'specifications (Binding B). See DESIGN.md.')
 ENGINES = [
+    {'name': 'exporter-rig', 'path': 'specs/Exporter.tla, specs/Metrics.tla + lib/expdrv.py + harness/src/bin/{exporter,obsdump}.rs',
+     'serves_properties': ['C19', 'C20'],
+     'kind_free_text': 'TLC enumerates connection-behaviour sequences / instance states with expected metrics; a Python rig runs the real exporter process between a scripted TCP client and a scripted observation socket'},
     {'name': 'reference-vectors', 'path': 'specs/Codec.tla, specs/TimeArith.tla, specs/Overlay.tla + harness/src/bin/{codecvec,codecfuzz,timevec,overlay}.rs',
      'serves_properties': ['C04', 'C16', 'C18'],
      'kind_free_text': 'TLC evaluates an independent TLA+ reference (codec, limb arithmetic, exact overlay clock) over enumerated families / bounded behaviours; every vector or edge is applied to the real code and compared'},
@@ -145,5 +148,24 @@ CLAIMED['C18'] = {
              '(sequences of set_frequency in {+-500, +-100, 0} ppm, step_clock in {+-10 s, +-1 ms, 0}, advances {0, 1, 100, 700} s) is executed on a real OverlayClock over a mock '
              'underlying clock at three start points; reading, returned time and time_from_underlying are compared with the exact value after every operation.'),
     'note': 'tolerance 2 ns + 2^-30 of the elapsed time (resolution of the implementation\'s fixed-point factor); the step_clock defect found is repaired by fix: 55c0e78',
+}
+
+CLAIMED['C19'] = {
+    'engine': 'exporter-rig', 'level': 'exploration', 'design_ref': 'DESIGN.md section 4, C19',
+    'technique': 'TLA+ mapping from abstract instance state to the expected metric set (Metrics.tla) attached by TLC to every explored state; real getters -> real JSON serialisation -> real exporter process -> HTTP GET -> every metric compared',
+    'text': ('TLC explores boundary-clock, path-trace (lists of 0..128 entries) and P2P configurations of the instance specification and attaches to each state the metrics it must '
+             'show, with the meaning of the help texts (true = 1, portState codes, nanosecond units, path numbered from the grandmaster). For every state with a distinct expectation '
+             'the history is replayed on real objects, the observable state assembled from the live getters, serialised with serde_json, served to the real exporter and fetched over '
+             'HTTP: status, Content-Length, well-formed exposition and every value are checked; filter estimates include +-10 s (fixed point beyond 64 bits).'),
+    'note': 'the assembly of the observable state mirrors main.rs; two defects found (inverted booleans, seconds under a nanoseconds name) are repaired by fix: commits',
+}
+CLAIMED['C20'] = {
+    'engine': 'exporter-rig', 'level': 'fault_enumeration', 'design_ref': 'DESIGN.md section 4, C20',
+    'technique': 'TLA+ state machine of the accept loop (Exporter.tla) model-checked for NeverWedged / BackToAccepting; TLC enumerates all sequences of client x observation-socket behaviours to a length bound, each executed against the real exporter process followed by a probe request',
+    'text': ('Exporter.tla has the accept loop as Accepting / Reading / Handling / Responding with the seven client behaviours and five observation-socket behaviours of the property; '
+             'TLC checks that the required behaviour is never wedged and always returns to accepting, shows that the loop as originally found is wedged (negative control), and enumerates '
+             'every sequence up to length 2 (quick) / 3 (thorough) plus sampled sequences of length 3-4 with the expected observation per connection. Each sequence runs against a fresh '
+             'real exporter process; afterwards a well-formed request must be answered 200 within 2 s, with the process alive and not burning CPU.'),
+    'note': 'the accept-loop defects found are repaired by fix: 9f182a5',
 }
 NOT_CLAIMED = {}
